@@ -321,11 +321,18 @@ func (eval *Evaluator) SlotsToCoeffs(ctReal, ctImag *rlwe.Ciphertext, stcMatrice
 	// If full packing, the repacking can be done directly using ct0 and ct1.
 	if ctImag != nil {
 
-		if err = eval.Mul(ctImag, 1i, opOut); err != nil {
+		// opOut = ctReal + i * ctImag. If opOut is ctReal, i * ctImag goes through a
+		// new ciphertext so that ctReal is still there when it is added.
+		iImag := opOut
+		if opOut == ctReal {
+			iImag = ckks.NewCiphertext(eval.parameters, 1, ctImag.Level())
+		}
+
+		if err = eval.Mul(ctImag, 1i, iImag); err != nil {
 			return fmt.Errorf("cannot SlotsToCoeffs: %w", err)
 		}
 
-		if err = eval.Add(opOut, ctReal, opOut); err != nil {
+		if err = eval.Add(iImag, ctReal, opOut); err != nil {
 			return fmt.Errorf("cannot SlotsToCoeffs: %w", err)
 		}
 
